@@ -304,6 +304,18 @@ DIRECTED = [
      {'b.prophy': '\ufeffstruct B { u8 x; };\n', 'a.prophy': '#include "b.prophy"\nstruct C { B b; }; // the end'}, 'a.prophy', 'usable'),
     ('file including another file of its own base name', None,
      {'common/types.prophy': 'struct P { u64 p; };\n', 'types.prophy': '#include "common/types.prophy"\nstruct T { P p; };\n'}, 'types.prophy', 'reject'),
+    ('isar: equal copies of one definition in two included files', '--isar',
+     {'p.xml': ISAR % '<struct name="P"><member name="a" type="u8"/></struct>', 'q.xml': ISAR % '<struct name="P"><member name="a" type="u8"/></struct>',
+      'a.xml': ISAR % '<xi:include href="p.xml"/><xi:include href="q.xml"/><struct name="A"><member name="p" type="P"/></struct>'}, 'a.xml', 'reject'),
+    ('isar: enumerator naming nothing', '--isar', {'a.xml': ISAR % '<enum name="E"><enum-member name="E_A" value="NOPE"/></enum>'}, 'a.xml', 'reject'),
+    ('isar: constant dividing by zero', '--isar', {'a.xml': ISAR % '<constant name="K" value="1/0"/>'}, 'a.xml', 'reject'),
+    ('isar: constant holding Python text', '--isar', {'a.xml': ISAR % '<constant name="K" value="__import__(\'os\').getpid()"/>'}, 'a.xml', 'reject'),
+    ('isar: unfinished expression as discriminator', '--isar',
+     {'a.xml': ISAR % '<union name="U"><member name="a" type="u8" discriminatorValue="1 +"/></union>'}, 'a.xml', 'reject'),
+    ('isar: constant beyond 64 bits', '--isar', {'a.xml': ISAR % '<constant name="K" value="18446744073709551617"/>'}, 'a.xml', 'reject'),
+    ('isar: include name with a line break', '--isar', {'a.xml': ISAR % '<xi:include href="types&#10;v2.xml"/><struct name="A"><member name="a" type="u8"/></struct>'}, 'a.xml', 'reject'),
+    ('type larger than 64 bits can count', None, {'a.prophy': 'struct S0 { u64 a[4294967295]; };\nstruct S1 { S0 a[4294967295]; };\nstruct S2 { S1 a[4294967295]; };\n'},
+     'a.prophy', 'reject'),
     ('isar: enumerator below -2^31', '--isar',
      {'a.xml': ISAR % '<enum name="E"><enum-member name="E_A" value="-4294967295"/></enum>'}, 'a.xml', 'reject'),
     ('isar: negative enumerator within 32 bits', '--isar',
